@@ -59,6 +59,9 @@ func obsKey(k *bip32.ExtendedKey) string {
 }
 
 func obsAll(regs []*bip32.ExtendedKey) string {
+	if len(regs) > 16 { // all live registers, or the 16 most recent when there are more
+		regs = regs[len(regs)-16:]
+	}
 	parts := make([]string, len(regs))
 	for i, k := range regs {
 		if k == nil {
